@@ -167,6 +167,31 @@ def _const_str_b(b, o, defs):
     return None
 
 
+def checksum_token_bounded(ctx, P):
+    """read_checksum copies the decoded checksum octets into a 4-octet buffer starting at index `len`: safe only for at most 3
+    decoded octets, i.e. a base64 token of at most 4 characters.  That bound is established by its only user, footer_parser, which
+    takes the token with a constant count.  (The index sites in read_checksum are reviewed baseline entries that rest on this.)"""
+    import json
+    fp = ctx.body('armor::reader::footer_parser')
+    if fp is None:
+        return
+    bodies = [fp] + [ctx.wrap(r) for r in ctx.f.closures_of(fp.path)]
+    takes = []
+    unbounded = []
+    for b in bodies:
+        for i, t in b.calls(r'^nom::bytes::(streaming|complete)::\w+$'):
+            fn = t['f']['fn'].split('::')[-1]
+            if fn == 'take':
+                c = t['args'][0].get('k', {}).get('v') if t['args'] else None
+                takes.append((site(b, i), c))
+            elif re.match(r'take_while|take_till|take_until|is_a|is_not', fn):
+                unbounded.append('%s at %s' % (fn, site(b, i)))
+    users = sorted(p for p, r in ctx.f.bodies.items() if p != 'armor::reader::read_checksum' and 'armor::reader::read_checksum"' in json.dumps(r['blocks']))
+    ok = bool(takes) and all(c is not None and c <= 4 for _, c in takes) and not unbounded and all(u.startswith('armor::reader::footer_parser') for u in users) and bool(users)
+    ctx.check(P + ':checksum-token-bounded', 'R-who', 'the base64 checksum token handed to read_checksum has a constant length of at most 4 characters (taken with nom take(4) in footer_parser, its only user)',
+              ok, function=fp.path, takes=takes, users=users, missing=(unbounded or ['no constant-count take / other users: %s' % users]) if not ok else None)
+
+
 def run(ctx):
     P = 'C10'
     stream.r_lost(ctx, P, 'S10-1')
@@ -239,6 +264,7 @@ def run(ctx):
     block_type_tables(ctx, P)
     header_line_separator(ctx, P)
     header_key_line_bounded(ctx, P)
+    checksum_token_bounded(ctx, P)
     stream.partial_buffer_verdicts(ctx, P)
     # tolerant reading must not panic on any armored input: the R-panic inventory of C04 restricted to the armor / base64 / line-writer modules
     from rules import c04
